@@ -87,6 +87,7 @@ def aligner_locate_e2(c):
     c.ensures(E2_an_admissible_occurrence_within_tolerance_is_reported_when_the_adapter_start_cannot_be_skipped="not is_none(result)")
     c.mutant("cost <= cur_effective_length * max_error_rate", "cost < cur_effective_length * max_error_rate", occurrence=1)
     c.mutant("last = min(m, k + 1)", "last = min(m, k)")
+    c.mutant("min_n = max(0, n - m - k)", "min_n = max(0, n - m - k + 1)")
     c.mutant("reversed(range(first_i, last_filled_i + 1))", "reversed(range(first_i + 1, last_filled_i + 1))")
 
 
@@ -120,3 +121,10 @@ def aligner_locate_e3(c):
         c.loop(k_, inv=inv)
     c.ensures(E3_without_indels_every_admissible_occurrence_within_tolerance_is_reported="not is_none(result)")
     c.mutant("self.n_counts[m - length]", "self.n_counts[m - length - 1]")
+
+
+def extra_checks(res, tier, seed, known, log):
+    from pyvc import runner
+    runner.runtime_standin(res, "C02", "c01", "match_to", seed, 4000 if tier == "quick" else 60000, 40 if tier == "quick" else 600,
+                           prefix="C02:", label="cut-position sentences (leftmost/rightmost copy, exact anchored removal) and occurrence clauses "
+                                                "at the level of the adapter classes, brute-force oracle")
